@@ -25,9 +25,11 @@ def run_case(case, base):
         else:
             f = os.path.join(d, "gapic", case["file"])
             s = open(f).read()
-            if s.count(case["old"]) < 1:
-                return dict(case=case["id"], ok=False, why="pattern not found (corpus is stale)", results={})
-            open(f, "w").write(s.replace(case["old"], case["new"], 1))
+            for old, new in case.get("edits") or [(case["old"], case["new"])]:
+                if s.count(old) < 1:
+                    return dict(case=case["id"], ok=False, why="pattern not found (corpus is stale)", results={})
+                s = s.replace(old, new, 1)
+            open(f, "w").write(s)
         props = ALL if case["prop"] == "*" else [case["prop"]] + case.get("also", [])
         env = dict(os.environ, VERIF_REPO=d, VERIF_EVIDENCE_DIR=os.path.join(d, "evidence"))
         results = {}
@@ -56,6 +58,8 @@ def main():
         sd = os.path.join(HERE, "seeded")
         for s in sorted(os.listdir(sd)):
             meta = json.load(open(os.path.join(sd, s, "meta.json")))
+            if not os.path.isfile(os.path.join(sd, s, "patch.diff")):
+                continue        # superseded seed (see its meta.json)
             if a.prop in (None, meta["property"]):
                 cb = meta.get("caught_by") or []
                 cases.append(dict(id="seed-" + s, kind="mutant", prop=meta["property"] if (meta["property"] in cb or not cb) else cb[0],
